@@ -8,6 +8,8 @@
 (*             nondeterministically) is tracked and CookieLifetime is      *)
 (*             checked for it - complete, because a violation involves one *)
 (*             issue and one look-up.                                      *)
+(*   SpecGenCookie: cookie walks (Advance / Current+seal / Open) for every  *)
+(*             class of the randomness source (KeyProvider_gencookie.cfg).  *)
 (*   SpecGen : the same transition relation with the sequence of events    *)
 (*             recorded in `hist`; Emit prints every behaviour of GenLen   *)
 (*             events (exhaustive enumeration, or `-simulate`) with the    *)
@@ -21,7 +23,7 @@ VARIABLES hist,     \* sequence of events (generator configurations only)
           tracked,  \* << >> or id :> [t, nb, na, val]: one issue followed by SpecDeep
           pick      \* weight of Current() among the random successors of SpecSim (else 0)
 
-allvars == <<now, keys, currentID, generatedAt, ret, issued, seen, hist, tracked, pick>>
+allvars == <<now, keys, currentID, generatedAt, ret, issued, seen, cookies, draw, hist, tracked, pick>>
 
 MCInit == Init /\ hist = << >> /\ tracked = << >> /\ pick = 0
 SpecExh == MCInit /\ [][Next /\ UNCHANGED <<hist, tracked, pick>>]_allvars
@@ -30,8 +32,16 @@ SpecExh == MCInit /\ [][Next /\ UNCHANGED <<hist, tracked, pick>>]_allvars
 Track == \/ UNCHANGED tracked
          \/ /\ tracked = << >> /\ ret'.op = "cur"
             /\ tracked' = IssuedAfter(<< >>, ret')
-SpecDeep == MCInit /\ [][Next /\ Track /\ UNCHANGED <<hist, pick>>]_allvars
-TrackedLifetime  == CookieLifetimeFor(ret, tracked)
+\* (only presentations of the tracked cookie are judged, and `cookies` is not
+\* part of ViewDeep: the other cookies are not presented here)
+DeepNext == \/ \E d \in Gaps : Advance(d)
+            \/ Current
+            \/ \E id \in ProbeIds : Get(id)
+            \/ \E j \in DOMAIN tracked : Open(CookieId(j))
+SpecDeep == MCInit /\ [][DeepNext /\ Track /\ UNCHANGED <<hist, pick>>]_allvars
+TrackedLifetime  == /\ CookieLifetimeFor(ret, tracked)
+                    /\ CookieUsableFor(ret, [c \in {CookieId(j) : j \in DOMAIN tracked} |->
+                                               tracked[CHOOSE j \in DOMAIN tracked : CookieId(j) = c]])
 ATrackedLifetime == [][TrackedLifetime']_allvars
 
 \* VIEW for the exhaustive configurations.  History entries that can no longer
@@ -45,8 +55,12 @@ ATrackedLifetime == [][TrackedLifetime']_allvars
 \* (that same state fails GetOnlyValid) or through a new key that reuses an old
 \* identifier (excluded by HistBelow and IdsIncreasing).
 Live(t, nb) == t + 2 * Day >= now \/ nb + 3 * Day >= now
+\* (`draw` is left out of both views: no action and no clause of KeyProvider.tla
+\* reads it - the specification's provider does not depend on the leading bytes
+\* of its randomness - so the four initial states have identical futures)
 ViewExh == <<now, keys, currentID, generatedAt,
              [i \in {j \in DOMAIN issued : Live(issued[j].t, issued[j].nb)} |-> issued[i]],
+             [i \in {j \in DOMAIN cookies : Live(cookies[j].t, cookies[j].nb)} |-> cookies[i]],
              {k \in seen : Live(k.nb, k.nb)}>>
 \* (a tracked issue that left its windows is "spent": unlike << >> it cannot be
 \* replaced by a later issue, so the two must not share a fingerprint)
@@ -54,15 +68,17 @@ ViewDeep == <<now, keys, currentID, generatedAt,
               IF \A j \in DOMAIN tracked : Live(tracked[j].t, tracked[j].nb) THEN tracked ELSE <<"spent">>,
               {k \in seen : Live(k.nb, k.nb)}>>
 HistBelow == (\A k \in seen : k.id <= currentID) /\ (\A i \in DOMAIN issued : i <= currentID)
+             /\ (\A c \in DOMAIN cookies : c <= currentID)
 
 ACurrentValid   == [][CurrentValid']_allvars
 ACurrentFresh   == [][CurrentFresh']_allvars
 AGetOnlyValid   == [][GetOnlyValid']_allvars
 AIdsUnique      == [][IdsUnique']_allvars
 ACookieLifetime == [][CookieLifetime']_allvars
+ACookieUsable   == [][CookieUsable']_allvars
 
 \* one recorded event: a clock step [op "adv", d, t] or the returned value
-AdvEv == [op |-> "adv", arg |-> now' - now, t |-> now', ok |-> TRUE, id |-> 0, nb |-> 0, na |-> 0, val |-> 0]
+AdvEv == [op |-> "adv", arg |-> now' - now, t |-> now', ok |-> TRUE, id |-> 0, nb |-> 0, na |-> 0, val |-> 0, cid |-> 0]
 \* generator normal form: never two clock steps in a row (they merge into one)
 LastIsAdv == Len(hist) > 0 /\ hist[Len(hist)].op = "adv"
 GenNext ==
@@ -70,10 +86,22 @@ GenNext ==
   /\ \/ ~LastIsAdv /\ (\E d \in Gaps : Advance(d)) /\ hist' = Append(hist, AdvEv)
      \/ Current /\ hist' = Append(hist, ret')
      \/ (\E id \in ProbeIds : Get(id)) /\ hist' = Append(hist, ret')
-SpecGen == MCInit /\ [][GenNext /\ UNCHANGED <<tracked, pick>>]_allvars
+SpecGen == MCInit /\ draw = "real" /\ [][GenNext /\ UNCHANGED <<tracked, pick>>]_allvars
+\* the cookie walk: every behaviour of GenLen events over clock steps, issues
+\* (Current + seal) and presentations of the cookies held, for every class of
+\* the randomness source
+GenCookieNext ==
+  /\ Len(hist) < GenLen
+  /\ \/ ~LastIsAdv /\ (\E d \in Gaps : Advance(d)) /\ hist' = Append(hist, AdvEv)
+     \/ Current /\ hist' = Append(hist, ret')
+     \/ (\E c \in DOMAIN cookies : Open(c)) /\ hist' = Append(hist, ret')
+SpecGenCookie == MCInit /\ [][GenCookieNext /\ UNCHANGED <<tracked, pick>>]_allvars
+\* (a cookie walk ends with a presentation)
+EmitCookie == (Len(hist) = GenLen /\ hist[GenLen].op = "open") =>
+          PrintT(<<"CASE", ToJson([day |-> Day, draw |-> draw, h |-> hist])>>)
 \* behaviours end with a call (a trailing clock step observes nothing)
 Emit == (Len(hist) = GenLen /\ ~LastIsAdv) =>
-          PrintT(<<"CASE", ToJson([day |-> Day, h |-> hist])>>)
+          PrintT(<<"CASE", ToJson([day |-> Day, draw |-> draw, h |-> hist])>>)
 
 \* `tlc -simulate` picks uniformly among the successor states: Current() is
 \* given the weight SimW, look-ups are limited to the newest identifiers, 0 and
@@ -88,10 +116,11 @@ SimNext ==
      /\ \/ ~LastIsAdv /\ (\E d \in Gaps : Advance(d)) /\ hist' = Append(hist, AdvEv) /\ pick' = 0
         \/ Current /\ hist' = Append(hist, ret') /\ pick' \in 1 .. SimW
         \/ (\E id \in SimIds : Get(id)) /\ hist' = Append(hist, ret') /\ pick' = 0
+        \/ (\E c \in SimIds \cap DOMAIN cookies : Open(c)) /\ hist' = Append(hist, ret') /\ pick' = 0
   \/ /\ Len(hist) = GenLen /\ pick # SimDone /\ pick' = SimDone
-     /\ UNCHANGED <<now, keys, currentID, generatedAt, ret, issued, seen, hist>>
+     /\ UNCHANGED <<now, keys, currentID, generatedAt, ret, issued, seen, cookies, draw, hist>>
 SpecSim == MCInit /\ [][SimNext /\ UNCHANGED tracked]_allvars
-EmitSim == pick = SimDone => PrintT(<<"CASE", ToJson([day |-> Day, h |-> hist])>>)
+EmitSim == pick = SimDone => PrintT(<<"CASE", ToJson([day |-> Day, draw |-> draw, h |-> hist])>>)
 
 \* ---- constant sets (cfg files cannot hold expressions)
 GapsExh  == 1 .. 20                                  \* 6 h .. 5 days in 6-hour units
